@@ -76,7 +76,77 @@ def lookup_and_evaluate(arg):
     return dict(queries=queries, times=times, nobj=nobj, results=out)
 
 
+def score_pair(arg):
+    """per-object scores of one random (estimate, ground truth) pair - different extents, headings, offsets, also behind the ego - computed with the
+    pair stored in base_link and stored in map under a random ego pose (transforms supplied).  The map storage is a common rigid motion of the
+    pair that keeps it where it is relative to the ego, so the event is a Trace_Scores event with `moved` = map storage and rot_only = 1
+    (plane distance must not change either)."""
+    import math
+    import random as _r
+
+    from perception_eval.evaluation.matching import MatchingMode
+    from perception_eval.evaluation.result.object_result import DynamicObjectWithPerceptionResult
+
+    from ..build import EgoPose, obj3d
+
+    seed, k = arg
+    rng = _r.Random(seed * 65537 + k)
+    while True:
+        ego = EgoPose(rng.uniform(-800, 800), rng.uniform(-800, 800), 0.0, rng.uniform(-math.pi, math.pi))
+        gp = (rng.uniform(-40, 40), rng.uniform(-40, 40), rng.uniform(-1, 1))
+        gyaw = rng.uniform(-math.pi, math.pi)
+        gsize = (rng.uniform(0.6, 2.5), rng.uniform(0.6, 12.0), rng.uniform(1.0, 3.0))
+        off = rng.choice([0.1, 0.4, 1.0, 2.5])
+        ang = rng.uniform(-math.pi, math.pi)
+        ep = (gp[0] + off * math.cos(ang), gp[1] + off * math.sin(ang), gp[2] + rng.uniform(-0.3, 0.3))
+        eyaw = gyaw + rng.choice([0.0, 0.05, 0.3, 1.2, math.pi / 2, math.pi])
+        esize = tuple(v * rng.choice([1.0, 0.6, 0.9, 1.3]) for v in gsize)
+        out = {}
+        for fr in ("base_link", "map"):
+            e = obj3d(ep, yaw=eyaw, size=esize, label="car", frame=fr, ego=ego)
+            g = obj3d(gp, yaw=gyaw, size=gsize, label="car", frame=fr, ego=ego)
+            r = DynamicObjectWithPerceptionResult(e, g, transforms=ego.transforms())
+            r2 = DynamicObjectWithPerceptionResult(g, e, transforms=ego.transforms())
+            out[fr] = dict(center=r.center_distance.value, plane=r.plane_distance.value, iou2d=r.iou_2d.value, iou3d=r.iou_3d.value, yaw_error=r.heading_error[2],
+                           correct_plane_1m=r.is_result_correct(MatchingMode.PLANEDISTANCE, 1.0), center_s=r2.center_distance.value, iou2d_s=r2.iou_2d.value,
+                           iou3d_s=r2.iou_3d.value)
+            if fr == "base_link":
+                corners = lambda o: sorted(math.hypot(p[0], p[1]) for p in list(o.get_footprint().exterior.coords)[:4])
+                ge, gg = corners(e), corners(g)
+        # plane distance ranks the corners of both boxes by their distance from the ego: near-ties of the ranking are excluded (the statement's margin)
+        if min(gg[2] - gg[1], ge[2] - ge[1]) < 1e-3 or 0 < out["base_link"]["iou2d"] < 1e-6:
+            continue
+        break
+    a, m = out["base_link"], out["map"]
+    f6 = lambda v: int(round(v * 1e6))
+    f4 = lambda v: int(round(v * 1e4))
+    ev = dict(iou2=f6(a["iou2d"]), iou3=f6(a["iou3d"]), iou2_swapped=f6(a["iou2d_s"]), iou3_swapped=f6(a["iou3d_s"]), iou2_moved=f6(m["iou2d"]), iou3_moved=f6(m["iou3d"]),
+              cd4=f4(a["center"]), cd4_swapped=f4(a["center_s"]), cd4_moved=f4(m["center"]), pd4=f4(a["plane"]), pd4_moved=f4(m["plane"]), rot_only=1, identical=0, far=0,
+              dx=int(round((ep[0] - gp[0]) * 100)), dy=int(round((ep[1] - gp[1]) * 100)), dz=int(round((ep[2] - gp[2]) * 100)))
+    return ev, dict(ego=[ego.t[0], ego.t[1], ego.yaw], gt=[gp, gyaw, gsize], est=[ep, eyaw, esize], scores=out)
+
+
 def run(ctx: Ctx):
+    from .. import trace as _trace
+    from ..core import pmap as _pmap
+
+    outs = _pmap(score_pair, [(ctx.seed, k) for k in range(400 if ctx.quick else 6000)], chunks=4)
+    evs, info = [], {}
+    for tid, (ev, sc) in enumerate(outs, 1):
+        evs.append(dict(ev, tid=tid))
+        info[tid] = sc
+        ctx.traces += 1
+        ctx.evaluations += 2
+        ctx.nontrivial_count += 1
+        a, b = sc["scores"]["base_link"], sc["scores"]["map"]
+        dy_ = abs(a["yaw_error"] - b["yaw_error"])
+        if min(dy_, abs(dy_ - 2 * 3.141592653589793)) > 1e-6:
+            ctx.violation("per-object-scores:ego-vs-map:yaw-error", "yaw error of one pair differs between base_link and map storage: %s vs %s" % (a, b), sc)
+        if a["correct_plane_1m"] != b["correct_plane_1m"] and abs(a["plane"] - 1.0) > 1e-3:
+            ctx.violation("per-object-scores:ego-vs-map:decision", "TP decision of one pair differs between base_link and map storage: %s vs %s" % (a, b), sc)
+    for t_, line, clause in _trace.validate(ctx, "Trace_Scores", evs, tag="Trace_Scores_" + ctx.pid):
+        ctx.violation("per-object-scores:ego-vs-map:" + clause, "scores of one pair stored in base_link / in map rejected by Trace_Scores: %s" % clause, info[t_])
+
     def want(rendering, kind, fields):
         return rendering == "map"
 
